@@ -36,3 +36,21 @@ reg("C12", "C12", _c12, "exploration", {"quick": 1600, "thorough": 24000},
          "real run. distinct = distinct (n, nb_points, twin, poised, #constraints, family, op kinds, faults) resp. world "
          "signatures",
     reach=["models.ops_ill_conditioned", "models.ops_shift", "models.ops_reset", "c12.ops_update"])
+
+
+def _c18(seed, idx, tier):
+    """Even cases: 12 radius-machine histories; odd cases: one faulted world with the per-iteration probe clauses."""
+    from .machines import radius as rm
+    if idx % 2 == 0:
+        return rm.radius_case(seed, idx, tier)
+    return engines.faulted_case("C18", seed, idx, tier)
+
+
+reg("C18", "C18", _c18, "exploration", {"quick": 1600, "thorough": 24000},
+    rule="even cases: 12 seeded histories each (radii over 30 decades, radius_final = 0 / = radius_init, constants drawn "
+         "inside their documented intervals, up to 200 ops: update_radius with ratios at the thresholds +-1 ulp and step "
+         "norms over 12 decades, short-step shrink, enhance_resolution) on a real TrustRegion, invariants after every op; "
+         "odd cases: " + RULE_WORLD + " with radius/resolution/penalty/centre invariants probed at every iteration. "
+         "distinct = distinct (decade of radius_init, decade of the ratio, constants supplied, length bucket) resp. world "
+         "signatures",
+    reach=["c18.iters", "c18.e_checked", "c18.f_checked", "radius.ops_enhance"])
